@@ -26,7 +26,7 @@ LEVEL = 'exploration'
 SHARDS = {'quick': 4, 'thorough': 16}
 BUDGET = {'quick': 15, 'thorough': 150}
 
-NDIRS = 4
+NDIRS = 5
 UNKNOWN_VERBS = ['FOO', 'get', 'GET_ITEM']
 REQ_METHODS = M.STANDARD + M.META + UNKNOWN_VERBS
 SUFFIXES = ['item', 'a', 'a_b']
@@ -213,6 +213,21 @@ def judge(alt, obs, method):
     raise AssertionError(cls)
 
 
+def _readd_decisive(entries, chosen):
+    """entries: (idx, identity of the prefix, matches-this-path) in order of addition.  True when the chosen entry
+    re-uses the prefix of an older entry and a DIFFERENT matching prefix was added in between (so an implementation
+    that gave the re-added entry the old entry's rank would pick another one)."""
+    pos = [k for k, e in enumerate(entries) if e[0] == chosen]
+    if not pos:
+        return False
+    j = pos[0]
+    ident = entries[j][1]
+    for i in range(j):
+        if entries[i][1] == ident and any(e[1] != ident and e[2] for e in entries[i + 1:j]):
+            return True
+    return False
+
+
 def check_request(rec, b, method, path, checkpoints=(), final=True):
     exp = b.model.expect(method, path)
     if exp is None:
@@ -252,6 +267,8 @@ def check_request(rec, b, method, path, checkpoints=(), final=True):
             rec.count('cls.sink-kwarg-none')
         if 'sink' in alt['over']:
             rec.count('cls.lifo-sink-over-sink')
+        if _readd_decisive([(i, (p.pattern, p.flags), p.match(path) is not None) for i, p in b.model.sinks], alt['idx']):
+            rec.count('cls.%s.readd-sink-decisive' % stack)
         if 'static' in alt['over']:
             rec.count('cls.sink-over-static')
             if not b.cfg['sink_first']:
@@ -259,6 +276,9 @@ def check_request(rec, b, method, path, checkpoints=(), final=True):
     elif cls == 'static':
         if 'static' in alt['over']:
             rec.count('cls.lifo-static-over-static')
+        if _readd_decisive([(i, p.rstrip('/'), M.Model._static_matches(p, fb, path)) for i, p, _d, fb in b.model.statics],
+                           alt['idx']):
+            rec.count('cls.%s.readd-static-decisive' % stack)
         if 'sink' in alt['over']:
             rec.count('cls.static-over-sink')
         if alt.get('content') is None and not alt.get('lenient'):
@@ -328,6 +348,36 @@ def family_orders():
 
 
 ORDER_PATHS = ['/f/common.txt', '/f/only0.txt', '/f/nope.txt', '/f/sub/common.txt', '/f/sub/zz.txt', '/f/sub', '/f', '/f/cx']
+
+
+def family_readd_sinks():
+    """All orders of: sink P, overlapping sink Q, sink P AGAIN (equal pattern, new callable), static route S;
+    x option x stack x how the two equal patterns are passed (str/str, str/compiled, compiled/compiled)."""
+    for perm in itertools.permutations(range(4)):
+        for sink_first in (True, False):
+            for stack in ('wsgi', 'asgi'):
+                for c0, c2 in ((False, False), (False, True), (True, True)):
+                    items = [['sink', 0, '/f', 0, c0], ['sink', 1, '/f/c', 0, False], ['sink', 2, '/f', 0, c2],
+                             ['static', 0, '/f', 0, None, False]]
+                    yield {'stack': stack, 'sink_first': sink_first, 'resources': [{'callable': ['on_get']}],
+                           'ops': [items[i] for i in perm]}
+
+
+def family_readd_statics():
+    """All orders of: static /f, static /f/sub, static /f AGAIN (other directory; same or slash-terminated
+    spelling of the prefix), sink /f/sub/c; x option x stack."""
+    for perm in itertools.permutations(range(4)):
+        for sink_first in (True, False):
+            for stack in ('wsgi', 'asgi'):
+                for again in ('/f', '/f/'):
+                    items = [['static', 0, '/f', 0, None, False], ['static', 1, '/f/sub', 1, 'index.html', False],
+                             ['static', 2, again, 2, None, False], ['sink', 0, '/f/sub/c', 0, False]]
+                    yield {'stack': stack, 'sink_first': sink_first, 'resources': [{'callable': ['on_get']}],
+                           'ops': [items[i] for i in perm]}
+
+
+READD_SINK_PATHS = ['/f/common.txt', '/f/only0.txt', '/f/cx', '/f', '/g']
+READD_STATIC_PATHS = ['/f/common.txt', '/f/sub/common.txt', '/f/sub/only1.txt', '/f/sub/only2.txt', '/f/only2.txt', '/f/sub']
 
 
 def run_config_fixed(rec, root, cfg, requests, every_step):
@@ -427,13 +477,32 @@ def gen_config(rng):
     for i, (pat, flags, examples) in enumerate(rng.sample(sink_pool(rng), rng.randint(0, 4))):
         ops.append(['sink', i, pat, int(flags), bool(flags) or rng.random() < 0.3])
         hints += examples
+    # an already used sink pattern registered again (equal string / equal compiled pattern) with a new callable
+    sink_ops = [o for o in ops if o[0] == 'sink']
+    for _ in range(rng.choice([0, 0, 1, 1, 2]) if sink_ops else 0):
+        src = rng.choice(sink_ops)
+        ops.append(['sink', len([o for o in ops if o[0] == 'sink']), src[2], src[3], bool(src[3]) or rng.random() < 0.5])
     dirs = rng.sample(range(NDIRS), rng.randint(0, 3))
+    spare = [d for d in range(NDIRS) if d not in dirs]
+    used_prefixes = []
     for i, d in enumerate(dirs):
         prefix = rng.choice(static_prefix_pool(rng))
+        used_prefixes.append(prefix)
         ops.append(['static', i, prefix, d, rng.choice([None, None, 'index.html', 'sub/common.txt']), rng.random() < 0.2])
         p = prefix.rstrip('/')
         hints += [p + '/common.txt', p + '/only%d.txt' % d, p + '/sub/common.txt', p + '/nope.txt', p or '/', p + '/',
                   p + 'x/common.txt', p + '/7', p + '/sub', p + '/abc']
+    # an already used static prefix registered again over another directory
+    for _ in range(rng.choice([0, 0, 1, 2]) if used_prefixes else 0):
+        if not spare:
+            break
+        prefix = rng.choice(used_prefixes)
+        if rng.random() < 0.25 and prefix != '/':
+            prefix = prefix[:-1] if prefix.endswith('/') else prefix + '/'
+        d = spare.pop()
+        ops.append(['static', len([o for o in ops if o[0] == 'static']), prefix, d,
+                    rng.choice([None, None, 'index.html']), False])
+        hints += [prefix.rstrip('/') + '/only%d.txt' % d, prefix.rstrip('/') + '/sub/only%d.txt' % d]
     rng.shuffle(ops)
     if not ops:
         ops.append(['sink', 0, '/', 0, False])
@@ -508,8 +577,20 @@ def run(rec):
             reqs = [(m, p) for p in ORDER_PATHS for m in ('GET', 'POST' if idx % 2 else 'OPTIONS')]
             run_config_fixed(rec, root, cfg, reqs, every_step=True)
             rec.count('exh.order-configs')
+        for fam, paths, counter in ((family_readd_sinks, READD_SINK_PATHS, 'exh.readd-sink-configs'),
+                                    (family_readd_statics, READD_STATIC_PATHS, 'exh.readd-static-configs')):
+            for cfg in fam():
+                idx += 1
+                if idx % rec.nshards != rec.shard:
+                    continue
+                reqs = [(('GET', 'POST', 'OPTIONS')[(idx + i) % 3], p) for i, p in enumerate(paths)]
+                run_config_fixed(rec, root, cfg, reqs, every_step=True)
+                rec.count(counter)
         rec.exhaustive = True
         if rec.shard == 0:
+            rec.note('exhaustive re-add families: all 24 orders of {sink P, sink Q, sink P again, static} x 3 ways of '
+                     'passing the equal pattern, and of {static /f, static /f/sub, static /f again, sink}, x 2 option '
+                     'values x 2 stacks, requests after every add')
             rec.note('exhaustive: 32 subsets of %r x plain/suffixed x 2 stacks (%d requests each); all 120 add orders of '
                      '2 sinks + 2 static routes + 1 route x 2 option values x 2 stacks, requests after every add'
                      % (U5, len(SUBSET_REQUESTS)))
@@ -532,7 +613,12 @@ def run(rec):
               'cls.lifo-sink-over-sink', 'cls.lifo-static-over-static', 'cls.sink-over-static', 'cls.static-over-sink',
               'cls.static-404-does-not-fall-through', 'cls.request-between-adds', 'cls.several-routes-match'):
         rec.floor(c, 10)
-    rec.floor('exh.subset-configs', 124)
+    for stack in ('wsgi', 'asgi'):
+        rec.floor('cls.%s.readd-sink-decisive' % stack, 40)
+        rec.floor('cls.%s.readd-static-decisive' % stack, 40)
+    rec.floor('exh.readd-sink-configs', 288)
+    rec.floor('exh.readd-static-configs', 192)
+    rec.floor('exh.subset-configs', 126)
     rec.floor('exh.order-configs', 480)
     rec.floor('random.configs', 50)
 
